@@ -62,6 +62,24 @@ type flow struct {
 	checked  map[byte]int
 	nAcc     int
 	seq      map[byte]uint32
+	accOrder []byte // channel of every accepted message, in acceptance order
+}
+
+// crossChannelReordered reports whether messages of different channels arrived
+// in another order than they were accepted (priority scheduling at work).
+func (f *flow) crossChannelReordered() bool {
+	f.rcv.mu.Lock()
+	defer f.rcv.mu.Unlock()
+	n := len(f.rcv.order)
+	if n > len(f.accOrder) {
+		n = len(f.accOrder)
+	}
+	for i := 0; i < n; i++ {
+		if f.rcv.order[i] != f.accOrder[i] {
+			return true
+		}
+	}
+	return false
 }
 
 func newFlow(name string, snd msender, rcv *mrecv) *flow {
@@ -472,9 +490,14 @@ type mdriver struct {
 	sendRefused    int
 	maxMsg         int
 	multiPacket    bool
+	exactMultiple  bool
 }
 
 func (d *mdriver) check() {
+	if d.pump.runaway && !d.r.stop {
+		d.r.violate("liveness", "net/traffic-never-quiesces", "the two connections kept exchanging bytes through %d deliveries without any virtual time passing", maxSettleSteps)
+		return
+	}
 	for s := 0; s < 2; s++ {
 		if d.r.stop {
 			return
@@ -576,7 +599,7 @@ func (d *mdriver) doSend(st mstep) {
 			}
 			// nothing in flight and the call is still parked: only time helps
 			// (a rate limiter asleep, or the send timeout)
-			d.r.sleep(20 * time.Millisecond)
+			d.r.wait(20 * time.Millisecond)
 			waited += 20 * time.Millisecond
 			synctest.Wait()
 			if waited > 5*time.Minute {
@@ -597,6 +620,10 @@ func (d *mdriver) doSend(st mstep) {
 	}
 	if ok {
 		f.accepted[ch] = append(f.accepted[ch], msg)
+		f.accOrder = append(f.accOrder, ch)
+		if len(msg)%d.pl.payload == 0 {
+			d.exactMultiple = true
+		}
 		f.nAcc++
 		f.seq[ch]++
 		if len(msg) > d.maxMsg {
@@ -651,7 +678,7 @@ func (d *mdriver) drain(budget time.Duration, quantum time.Duration) {
 			r.violate("mconn", "mconn/accepted-message-not-delivered", "after %v of idle virtual time with the network fully pumped: %s", budget, m)
 			return
 		}
-		r.sleep(quantum)
+		r.wait(quantum)
 	}
 }
 
@@ -684,6 +711,14 @@ func (r *runState) scenarioMConn() {
 	} else {
 		link = r.newLink(pl.caps[0], pl.caps[1])
 		ends = [2]net.Conn{link.End(0), link.End(1)}
+	}
+	for d := 0; d < 2; d++ {
+		mode := byte(wireTypeCompress)
+		if pl.layered {
+			mode = r.mode
+		}
+		// layered over sealed/raw frames every flush is one 32 KiB frame
+		link.SetCapacity(d, minCapacity(mode, pl.caps[d], pl.wire[d], len(pl.steps)*4))
 	}
 	pm := newPump(r.net, r.pumpBudget(), link)
 	if pl.nodeInfo {
@@ -773,7 +808,7 @@ func (r *runState) scenarioMConn() {
 	r.sample["packets_planned"] = pl.packets
 	r.sample["trysend_refused"] = d.trySendRefused
 	r.sample["send_blocked"] = d.sendBlocked
-	r.sample["virtual_time"] = time.Since(r.start).String()
+	r.sample["planned_virtual_time"] = r.slept.String()
 	if msgs >= 3 && d.multiPacket {
 		c.NonTrivial()
 	}
@@ -794,6 +829,14 @@ func (r *runState) scenarioMConn() {
 	}
 	if len(pl.chans) >= 3 {
 		c.Probe("three_or_more_channels")
+	}
+	if d.exactMultiple {
+		c.Probe("message_exact_multiple_of_packet_payload")
+	}
+	// arrival order across channels is only schedule-independent where no
+	// virtual time passes during a backlog
+	if pl.mode == 0 && (d.flows[0].crossChannelReordered() || d.flows[1].crossChannelReordered()) {
+		c.Probe("channels_overtook_each_other")
 	}
 	c.Probe("mconn_mode_" + modeLetter(pl.mode))
 }
